@@ -376,7 +376,13 @@ impl<'a, R: 'a + Read + Seek> Read for CompressionLayerReader<'a, R> {
         let old_state = std::mem::replace(&mut self.state, CompressionLayerReaderState::Empty);
         match old_state {
             CompressionLayerReaderState::Ready(mut inner) => {
-                self.sync_inner_with_uncompressed_pos(&mut inner, self.underlayer_pos)?;
+                if let Err(err) =
+                    self.sync_inner_with_uncompressed_pos(&mut inner, self.underlayer_pos)
+                {
+                    // Keep the inner layer for further operations
+                    self.state = CompressionLayerReaderState::Ready(inner);
+                    return Err(err.into());
+                }
                 let decompressor = Box::new(self.new_decompressor_at(inner, self.underlayer_pos)?);
                 let uncompressed_size = self.uncompressed_block_size_at(self.underlayer_pos)?;
                 self.state = CompressionLayerReaderState::InData {
@@ -441,8 +447,33 @@ impl<R: Read + Seek> Seek for CompressionLayerReader<'_, R> {
                         // Move the underlayer at the start of the block
                         let old_state =
                             std::mem::replace(&mut self.state, CompressionLayerReaderState::Empty);
+                        if matches!(old_state, CompressionLayerReaderState::Empty) {
+                            // A previous operation failed half-way
+                            return Err(Error::WrongReaderState(
+                                "[Compression Layer] Seek after an unrecoverable error".to_string(),
+                            )
+                            .into());
+                        }
                         let mut inner = old_state.into_inner();
-                        self.sync_inner_with_uncompressed_pos(&mut inner, rounded_pos)?;
+                        if !self.pos_in_stream(rounded_pos) {
+                            // Not at the start of a block: this is either the end
+                            // of the stream (a valid position, with nothing left to
+                            // read) or a position past it
+                            self.state = CompressionLayerReaderState::Ready(inner);
+                            let end_pos = self.sizes_info.as_ref().unwrap().max_uncompressed_pos();
+                            if pos == end_pos {
+                                self.underlayer_pos = pos;
+                                return Ok(pos);
+                            }
+                            return Err(Error::EndOfStream.into());
+                        }
+                        if let Err(err) =
+                            self.sync_inner_with_uncompressed_pos(&mut inner, rounded_pos)
+                        {
+                            // Keep the inner layer for further operations
+                            self.state = CompressionLayerReaderState::Ready(inner);
+                            return Err(err.into());
+                        }
 
                         // New decompressor at the start of the block
                         let mut decompressor = self.new_decompressor_at(inner, rounded_pos)?;
